@@ -53,16 +53,10 @@ type SwapV2 struct {
 func (s *SwapV2) GetBestTradeExactIn(ctx context.Context, outId, inId uint64, inAmount *big.Int, maxHops int32) *Trade {
 	pairs := s.swapPools(ctx)
 
-	s.muPairs.RLock()
-	defer s.muPairs.RUnlock()
-
 	return s.trader.GetBestTradeExactIn(ctx, pairs, types.CoinID(outId), NewTokenAmount(types.CoinID(inId), inAmount), maxHops)
 }
 func (s *SwapV2) GetBestTradeExactOut(ctx context.Context, inId, outId uint64, outAmount *big.Int, maxHops int32) *Trade {
 	pairs := s.swapPools(ctx)
-
-	s.muPairs.RLock()
-	defer s.muPairs.RUnlock()
 
 	return s.trader.GetBestTradeExactOut(ctx, pairs, types.CoinID(inId), NewTokenAmount(types.CoinID(outId), outAmount), maxHops)
 }
@@ -85,6 +79,11 @@ func (s *SwapV2) swapPools(ctx context.Context) []EditableChecker {
 		return nil
 	default:
 	}
+
+	// the map is only locked while it is copied: the route search takes the pairs' own locks,
+	// which block execution holds while it waits for this one (markDirty)
+	s.muPairs.RLock()
+	defer s.muPairs.RUnlock()
 
 	pools := make([]EditableChecker, 0, len(s.pairs))
 
